@@ -108,14 +108,24 @@ func formatExpr(ctx *formatCtx, expr ast.Expr, ref *ast.Expr) {
 		formatExpr(ctx, v.Value, &v.Value)
 	case *ast.FuncLit:
 		formatFuncType(ctx, v.Type)
-		formatBlockStmt(ctx, v.Body)
+		formatFuncBody(ctx, nil, v.Type, v.Body)
 	case *ast.TypeAssertExpr:
 		formatExpr(ctx, v.X, &v.X)
 		formatType(ctx, v.Type, &v.Type)
 	case *ast.LambdaExpr:
+		old := ctx.enterBlock()
+		for _, name := range v.Lhs {
+			ctx.insert(name.Name)
+		}
 		formatExprs(ctx, v.Rhs)
+		ctx.leaveBlock(old)
 	case *ast.LambdaExpr2:
+		old := ctx.enterBlock()
+		for _, name := range v.Lhs {
+			ctx.insert(name.Name)
+		}
 		formatBlockStmt(ctx, v.Body)
+		ctx.leaveBlock(old)
 	case *ast.RangeExpr:
 		formatRangeExpr(ctx, v)
 	case *ast.ComprehensionExpr:
